@@ -33,6 +33,10 @@ CHECKS = {
  'C04': dict(level='exploration', ref='3/C04', technique='differential execution monitor with guard objects and position-dependent pattern fill (every named leaf dumped after each store) vs gcc == clang; runtime object registry (overlap/alignment/pattern) for VLA and alloca blocks; frame probes active',
              text='For random aggregate shapes every sampled leaf lvalue is written through one of seven access forms after the enclosing object and two guards were filled with a pattern; all leaves and the guards are dumped, so a wrong address, width, mask or a disturbed neighbour shows up as a member-wise difference from gcc == clang. VLA/alloca blocks of sizes 0..4096 at several call depths and inside argument lists are registered with the runtime, which asserts non-overlap, alignment and pattern integrity; statement probes check the frame invariant while the temp area is moved.',
              note='padding never compared; packed aggregates excluded (C08 findings); gcc == clang trusted for member values'),
+
+ 'C05': dict(level='exploration', ref='3/C05', technique='differential + self-consistency execution monitor: the same initializer text for a static and an automatic object (stack dirtied first), member-wise dumps and raw static bytes vs gcc == clang',
+             text='Random object types get random valid initializer spellings drawn from the 6.7.9 grammar (brace elision, nested/out-of-order designators, ranges, short lists, trailing commas, scalar re-initialisation, strings of every prefix incl. braced and concatenated, unions by first member and by designator, unknown bounds, flexible array members, address constants with offsets). Every named leaf of both storage classes is dumped; zero fill is only credible because the stack is dirtied before the automatic instance is created.',
+             note='gcc == clang trusted; generator avoids re-initialising an aggregate subobject with braces (open finding pinned by test/initializer.c, probed separately) and pointers inside unions (absolute addresses)'),
 }
 REASON_WIP = 'check not built yet in this session (planned, see DESIGN.md section 3); will be claimed once its monitor is silent on the unchanged tree'
 
